@@ -49,3 +49,19 @@ Example C07_nonvacuous :
   verify_auth ex_oracles ex_policy (InRec ex_cred) = Ok ex_result /\ va_new_count ex_result = 77 /\
   is_ok (verify_auth ex_oracles (with_count ex_policy 77) (InRec ex_cred)) = false.
 Proof. split; [exact auth_example_accepted|split; [reflexivity|exact auth_example_replay_rejected]]. Qed.
+
+(* the counter that counts is the SIGNED one: the members of the response that no signature covers (the attachment hint, the user handle) do not enter the verdict at all -
+   for every oracle, policy and credential record, whatever they are replaced by (seeded change C07_18 made a counter regression acceptable when the attachment
+   hint said "platform") *)
+Definition with_unsigned_members (c : auth_cred) (uh : option bytes) (att : option pystr) : auth_cred :=
+  {| acr_id := acr_id c; acr_raw_id := acr_raw_id c; acr_type := acr_type c; acr_client_data := acr_client_data c; acr_auth_data := acr_auth_data c;
+     acr_signature := acr_signature c; acr_user_handle := uh; acr_attachment := att |}.
+Theorem C07_unsigned_members_do_not_count : forall O P c uh att,
+  verify_auth_rec O P (with_unsigned_members c uh att) = verify_auth_rec O P c.
+Proof. intros. reflexivity. Qed.
+Print Assumptions C07_unsigned_members_do_not_count.
+(* ... in particular over histories: the stored counter evolves the same way *)
+Theorem C07_unsigned_members_do_not_count_in_histories : forall O P s c uh att,
+  rp_step O P s (InRec (with_unsigned_members c uh att)) = rp_step O P s (InRec c).
+Proof. intros. reflexivity. Qed.
+Print Assumptions C07_unsigned_members_do_not_count_in_histories.
